@@ -10,23 +10,23 @@ import (
 
 // GenOpts steers the random declaration family.
 type GenOpts struct {
-	MaxProvs   int     // budget of function providers
-	AsyncP     float64 // probability a function provider is Async
-	ErrP       float64 // probability a function provider is fallible
-	MultiInj   int     // number of injectors (>=1)
-	Files      int     // number of declaration files (>=1)
-	Ext        bool    // allow a sibling package with types/providers
-	Hostile    bool    // hostile type names
-	Static     bool    // allow static-only (identity-free) types
-	CtxP       float64 // probability that a parameter is context.Context
-	ManyRoots  bool    // bias to many parameterless providers (C05)
-	NoSets     bool
+	MaxProvs        int     // budget of function providers
+	AsyncP          float64 // probability a function provider is Async
+	ErrP            float64 // probability a function provider is fallible
+	MultiInj        int     // number of injectors (>=1)
+	Files           int     // number of declaration files (>=1)
+	Ext             bool    // allow a sibling package with types/providers
+	Hostile         bool    // hostile type names
+	Static          bool    // allow static-only (identity-free) types
+	CtxP            float64 // probability that a parameter is context.Context
+	ManyRoots       bool    // bias to many parameterless providers (C05)
+	NoSets          bool
 	ForceAsyncRoots bool // parameterless function providers are always Async
-	ManyExt  bool // always create the sibling packages that share one package name
-	ForceRaw int  // static: 1-based index of the raw type case to use for the first static type (0 = random)
-	Wire     bool // google/wire configuration family (single-result providers, everything needed, no Async)
-	Fanout   int // max parameters of a function provider (default 3)
-	ReuseP   int // percent chance that a parameter reuses an already supplied type (diamonds)
+	ManyExt         bool // always create the sibling packages that share one package name
+	ForceRaw        int  // static: 1-based index of the raw type case to use for the first static type (0 = random)
+	Wire            bool // google/wire configuration family (single-result providers, everything needed, no Async)
+	Fanout          int  // max parameters of a function provider (default 3)
+	ReuseP          int  // percent chance that a parameter reuses an already supplied type (diamonds)
 }
 
 type gen struct {
